@@ -16,6 +16,8 @@ import (
 	"github.com/verily-src/fhirpath-go/fhirpath/verifharness/gen"
 	"github.com/verily-src/fhirpath-go/fhirpath/verifharness/model"
 	"github.com/verily-src/fhirpath-go/internal/fhir"
+	"google.golang.org/protobuf/proto"
+	"google.golang.org/protobuf/reflect/protoreflect"
 )
 
 // ctxFromTree derives non-vacuous paths by category from a resource's tree.
@@ -267,6 +269,187 @@ func c01Stream2(env *core.Env) {
 		}
 		c01Source(env, "stream2", src, resType, resSeed, rich, copt, ot, nIn)
 		env.Cover("stream2/tree")
+	}
+}
+
+// c01Mixed: navigation over containers mixing resource types that share a backbone element name, and one
+// un-rooted path evaluated on resources of different types in turn (through fx.Eval, which also re-evaluates
+// the expression compiled at the first occurrence of the source).
+func c01Mixed(env *core.Env, group string, tns []string, seed uint64, viaContained bool) {
+	defer env.In("mixed", group, tns, seed, viaContained)()
+	res, tn, members := buildMixed(group, tns, seed, viaContained)
+	env.Case()
+	env.Cover("stream2/mixed")
+	// child names of the shared backbone element, over all member types
+	kids := map[string]bool{}
+	var kidNames []string
+	for _, m := range members {
+		fs := m.ProtoReflect().Descriptor().Fields()
+		for i := 0; i < fs.Len(); i++ {
+			if fs.Get(i).JSONName() != group || fs.Get(i).Message() == nil {
+				continue
+			}
+			cf := fs.Get(i).Message().Fields()
+			for k := 0; k < cf.Len(); k++ {
+				if cf.Get(k).Message() != nil && !kids[cf.Get(k).JSONName()] && !lexicallyOdd(cf.Get(k).JSONName()) {
+					kids[cf.Get(k).JSONName()] = true
+					kidNames = append(kidNames, cf.Get(k).JSONName())
+				}
+			}
+		}
+	}
+	if lexicallyOdd(group) {
+		return
+	}
+	prefix := tn + ".entry.resource"
+	if viaContained {
+		prefix = tn + ".contained"
+	}
+	g := model.IdentSrc(group)
+	srcs := []string{prefix + "." + g, prefix + "." + g + ".children().count()", prefix + "." + g + ".descendants().count()", prefix + ".descendants().count()", prefix + "." + g + ".id", prefix + "." + g + ".extension"}
+	var unrooted []string
+	for _, k := range kidNames {
+		srcs = append(srcs, prefix+"."+g+"."+model.IdentSrc(k), prefix+"."+g+".where("+model.IdentSrc(k)+".exists())."+model.IdentSrc(k)+".count()")
+		unrooted = append(unrooted, g+"."+model.IdentSrc(k), g+"."+model.IdentSrc(k)+".children()")
+	}
+	in := []fhir.Resource{res}
+	for _, src := range srcs {
+		r := fx.Eval(env, src, in, nil, nil)
+		c01Judge(env, "stream2m", "mixed:"+group, src, r)
+	}
+	unrooted = append(unrooted, g, g+".count()", "id", "meta.lastUpdated", "descendants().count()")
+	for _, src := range unrooted {
+		for _, m := range members {
+			r := fx.Eval(env, src, []fhir.Resource{m}, nil, nil)
+			c01Judge(env, "stream2m", "unrooted:"+group, src, r)
+		}
+		// all members as separate inputs of one evaluation
+		r := fx.Eval(env, src, members, nil, nil)
+		c01Judge(env, "stream2m", "unrooted-multi:"+group, src, r)
+	}
+}
+
+func replayC01Mixed(env *core.Env, a []json.RawMessage) {
+	var group string
+	var tns []string
+	var seed uint64
+	var vc bool
+	json.Unmarshal(a[0], &group)
+	json.Unmarshal(a[1], &tns)
+	json.Unmarshal(a[2], &seed)
+	json.Unmarshal(a[3], &vc)
+	c01Mixed(env, group, tns, seed, vc)
+}
+
+// element x forcing operation: every element of a generated resource is pushed through the operations that
+// convert an element to a System value or compare / combine it (one compiled expression per operation).
+var c01ElemOps = []string{"%x = %x", "%x != %x", "%x < %x", "%x >= 1", "%x.toString()", "%x & 'x'", "%x + 1", "%x + %x", "-%x", "%x.abs()", "%x in %x", "%x.distinct()", "%x.isDistinct()",
+	"%x.toQuantity()", "%x.toDecimal()", "%x.toDateTime()", "%x.convertsToBoolean()", "%x is System.Quantity", "%x as Quantity", "%x.exists($this = %x)", "%x.where($this > %x)", "%x.select($this & $this)",
+	"%x.intersect(%x)", "%x.exclude(%x)", "(%x | %x)", "%x.children()", "%x.descendants().count()", "%x.not()", "iif(%x, 1, 2)", "%x.length()", "%x.round()", "%x.value", "%x.extension", "%x.id", "%x[0]", "%x.single()"}
+
+var c01ElemCompiled []*fhirpath.Expression
+
+func c01Elements(env *core.Env, tn string, seed uint64, rich bool) {
+	defer env.In("elements", tn, seed, rich)()
+	if c01ElemCompiled == nil {
+		for _, src := range c01ElemOps {
+			ex, _ := fx.Compile(env, src)
+			c01ElemCompiled = append(c01ElemCompiled, ex) // nil where the grammar is unsupported (`|`)
+		}
+	}
+	res, _ := genResource(tn, seed, rich)
+	var msgs []proto.Message
+	var walk func(m protoreflect.Message, depth int)
+	walk = func(m protoreflect.Message, depth int) {
+		msgs = append(msgs, m.Interface())
+		if depth > 8 {
+			return
+		}
+		m.Range(func(fd protoreflect.FieldDescriptor, v protoreflect.Value) bool {
+			if fd.Message() == nil || gen.IsAny(fd.Message()) {
+				return true
+			}
+			if fd.IsList() {
+				for i := 0; i < v.List().Len(); i++ {
+					walk(v.List().Get(i).Message(), depth+1)
+				}
+			} else if !fd.IsMap() {
+				walk(v.Message(), depth+1)
+			}
+			return true
+		})
+	}
+	walk(res.ProtoReflect(), 0)
+	step := 1
+	if len(msgs) > 120 {
+		step = len(msgs)/120 + 1
+	}
+	env.Case()
+	env.Cover("stream2/elements")
+	for i := 0; i < len(msgs); i += step {
+		m := msgs[i]
+		fb, ok := m.(fhir.Base)
+		if !ok {
+			continue
+		}
+		for k, ex := range c01ElemCompiled {
+			if ex == nil {
+				continue
+			}
+			r := fx.Evaluate(env, ex, []fhir.Resource{res}, evalopts.EnvVariable("x", fb))
+			if r.IsPanic() {
+				env.Violatef(fx.PanicSig("C01", r), "stream2e: `%s` with %%x = a %s of %s(seed %d) => %s", c01ElemOps[k], m.ProtoReflect().Descriptor().Name(), tn, seed, r.Short())
+			} else {
+				env.Distinct("stream2e|" + c01ElemOps[k] + "|" + string(m.ProtoReflect().Descriptor().Name()) + "|" + r.Kind)
+			}
+		}
+	}
+}
+
+func replayC01Elements(env *core.Env, a []json.RawMessage) {
+	var tn string
+	var seed uint64
+	var rich bool
+	json.Unmarshal(a[0], &tn)
+	json.Unmarshal(a[1], &seed)
+	json.Unmarshal(a[2], &rich)
+	c01Elements(env, tn, seed, rich)
+}
+
+func c01Stream2e(env *core.Env) {
+	n := 0
+	per := env.Size(1, 12)
+	for k := 0; k < per; k++ {
+		for _, md := range gen.ResourceTypes() {
+			n++
+			if env.Mine(n) {
+				c01Elements(env, string(md.Name()), env.Seed*1000+uint64(k)+500, k%2 == 0)
+			}
+		}
+	}
+}
+
+func c01Stream2m(env *core.Env) {
+	gnames, groups := backboneGroups()
+	rng := env.Rng("stream2m")
+	rounds := env.Size(1, 10)
+	n := 0
+	for k := 0; k < rounds; k++ {
+		for _, gname := range gnames {
+			tl := groups[gname]
+			cnt := 2 + rng.Intn(2)
+			var tns []string
+			start := rng.Intn(len(tl))
+			for i := 0; i < cnt && i < len(tl); i++ {
+				tns = append(tns, tl[(start+i*(1+rng.Intn(3)))%len(tl)])
+			}
+			vc := rng.Intn(3) == 0
+			sd := env.Seed*1000 + uint64(k)*31 + rng.Next()%1000
+			n++
+			if env.Mine(n) {
+				c01Mixed(env, gname, tns, sd, vc)
+			}
+		}
 	}
 }
 
